@@ -19,8 +19,7 @@
 //     fatal stack trace); the six "critical" patterns go to EVERY offset of every pack/step/record
 //     encoding, the rest is spread within a budget; for corrupted values the model's outcome and
 //     allocation units are compared as well;
-//  4. the witnesses of the Lean `finding_*` theorems and of the known finding are replayed on the
-//     implementation; the documented exception (SMBasePack older-version tail) is exercised.
+//  4. the witnesses of the Lean `finding_*` theorems are replayed on the implementation; the documented exception (SMBasePack older-version tail) is exercised.
 package main
 
 import (
@@ -38,7 +37,6 @@ import (
 	gio "github.com/whatap/golib/io"
 	"github.com/whatap/golib/lang/pack"
 	"github.com/whatap/golib/lang/pack/udp"
-	"github.com/whatap/golib/lang/service"
 	"github.com/whatap/golib/lang/step"
 	"github.com/whatap/golib/lang/value"
 	"verif/harness/vh"
@@ -159,51 +157,6 @@ func generate(rng *vh.Rng, thorough bool, rep *vh.Report) []enc {
 		if got[name] == 0 {
 			rep.Count("gen:writer-output-never-accepted-by-reader:" + name)
 		}
-	}
-	// three types whose Write does not produce what their own Read expects (layout mismatch, C03's
-	// subject): encodings in the layout of the READER, written with the repository's primitives
-	for i := 0; i < 5*mul; i++ {
-		out := gio.NewDataOutputX()
-		pp := pack.NewProfilePack()
-		fillObj(rng, &pp.AbstractPack, 1)
-		out.WriteShort(pack.PACK_PROFILE)
-		pp.AbstractPack.Write(out)
-		var svc service.Service
-		switch rng.Intn(3) {
-		case 0:
-			svc = service.NewWasService()
-		case 1:
-			svc = service.NewAppService()
-		default:
-			svc = service.NewWasService2()
-		}
-		fillObj(rng, svc, 2)
-		service.ToBytes(svc, out)
-		out.WriteBlob(genBytes(rng, false))
-		add("pack", "pack.ProfilePack", out.ToByteArray(), true)
-
-		out = gio.NewDataOutputX()
-		tp := pack.NewTagLogPack()
-		fillObj(rng, &tp.AbstractPack, 1)
-		out.WriteShort(pack.TAG_LOG)
-		tp.AbstractPack.Write(out)
-		out.WriteByte(0)
-		out.WriteText(genText(rng, false))
-		value.WriteValue(out, genMapValue(rng, 1, false))
-		value.WriteValue(out, genMapValue(rng, 1, false))
-		add("pack", "pack.TagLogPack", out.ToByteArray(), true)
-
-		out = gio.NewDataOutputX()
-		sp := pack.NewSMExtensionPack()
-		fillObj(rng, &sp.AbstractPack, 1)
-		sp.AbstractPack.Write(out)
-		out.WriteByte(1)
-		out.WriteBool(rng.Bool())
-		genIntMapValue(rng, 1).Write(out)
-		out.WriteByte(81)
-		genIntMapValue(rng, 1).Write(out)
-		genIntMapValue(rng, 1).Write(out)
-		add("sm:SMExtension", "pack.SMExtension", out.ToByteArray(), true)
 	}
 	// step lists
 	for i := 0; i < 60*mul; i++ {
@@ -399,8 +352,7 @@ func main() {
 
 	if env.Replay != "" {
 		runReplay(env, rep, self)
-		knownFindings(env, rep, self)
-		rep.Write(env.Out)
+			rep.Write(env.Out)
 		return
 	}
 
@@ -414,7 +366,6 @@ func main() {
 	prefixSweep(env, rep, rng, encs)
 	hostileSweep(env, rep, rng, encs, self)
 	witnesses(env, rep, self)
-	knownFindings(env, rep, self)
 	olderVersion(env, rep, rng)
 	rep.Write(env.Out)
 }
@@ -582,39 +533,58 @@ func hostileSweep(env *vh.Env, rep *vh.Report, rng *vh.Rng, encs []enc, self str
 		per = 60
 	}
 	var cases []hcase
-	seen := map[string]struct{}{}
+	total := 0
+	flush := func() {
+		if len(cases) == 0 {
+			return
+		}
+		res := runChildren(self, allocK, allocC, cases, 12, 20*time.Second)
+		judgeHostile(env, rep, cases, res, true)
+		total += len(cases)
+		cases = cases[:0]
+	}
+	seen := map[[8]byte]struct{}{}
+	everywhere := map[string]int{} // per type: encodings that got the critical patterns at every offset
 	for _, e := range encs {
 		structural := e.kind != "value" && !strings.HasPrefix(e.kind, "prim:")
-		total := len(e.b) * len(patterns)
+		full := false
+		if structural && len(e.b) <= 1200 && everywhere[e.typ] < 8 {
+			everywhere[e.typ]++
+			full = true
+		}
+		n := len(e.b) * len(patterns)
 		stride := 1
-		if total > per {
-			stride = (total + per - 1) / per
+		if n > per {
+			stride = (n + per - 1) / per
 		}
 		idx := rng.Intn(stride)
 		for off := 0; off < len(e.b); off++ {
 			for _, p := range patterns {
 				idx++
-				if idx%stride != 0 && !(structural && critical[p.name] && (env.Thorough || len(e.b) <= 1200)) {
+				if idx%stride != 0 && !(full && critical[p.name]) {
 					continue
 				}
 				m := mutate(e.b, off, p.b)
 				if string(m) == string(e.b) {
 					continue
 				}
-				key := e.kind + string(m)
-				if _, dup := seen[key]; dup {
+				h := sha1.Sum(append([]byte(e.kind+"|"), m...))
+				var k [8]byte
+				copy(k[:], h[:8])
+				if _, dup := seen[k]; dup {
 					continue
 				}
-				seen[key] = struct{}{}
+				seen[k] = struct{}{}
 				cases = append(cases, hcase{Kind: e.kind, Typ: e.typ, Hex: vh.Hex(m), What: fmt.Sprintf("%s@%d", p.name, off)})
 				rep.Count("hostile-pattern:" + p.name)
 			}
 		}
+		if len(cases) >= 150000 {
+			flush()
+		}
 	}
-	seen = nil
-	rep.Note("%d hostile inputs", len(cases))
-	res := runChildren(self, allocK, allocC, cases, 12, 20*time.Second)
-	judgeHostile(env, rep, cases, res, true)
+	flush()
+	rep.Note("%d hostile inputs", total)
 }
 
 func judgeHostile(env *vh.Env, rep *vh.Report, cases []hcase, res []hres, model bool) {
@@ -795,31 +765,6 @@ func witnesses(env *vh.Env, rep *vh.Report, self string) {
 				replayCase{Mode: "witness", Kind: w.kind, Typ: "witness", Hex: w.hex, What: w.what})
 		}
 	}
-}
-
-// ---------------------------------------------------------------- known findings (recorded, not repaired)
-
-const poidWitness = "02010905800000000084e70577ffaddbfefffffffe8000000000000000ff01a7048f7e6c8a047ffffffd040080000101e901080480000000010205800000000201fe045b369b7402c24d045d252867016e0892cdb72ed1ead6f808113e0a9ece82d12a088000000000000002019e0480000000057fffffffff01010388e6ceac179f707a90d1727234821b57572c02249aa30d689092742d8b49002b387b027fff7a655a672d743a220a2fc52708dec764f0694cc74001f4018204c912ce1901010301fe027ffd043549cfb4044b2c3c50027fff04f24ba92201020182017e0480000001027fff010419d2ce8d01fd04b913035f017d04361fb8687a399e3304843b48a332bb00086f2e8c737dfd146c08d6de25c7f87d3ea6043d649e4804324d2eb401510101ffffff7f4a0005d9882f0762a8ada10000000000000000ff87540843ce3320000000000000000105a68ce997e70800000001000000000002006ae988ffff017d047fffffff000000000002058000000002045b895981018101fe03ff7ffe657649fd5742f9db1a45b235044e18f7db01017e3e255001ff7608ffffff7fffffffff047ffffffd722218f303800001000450ec68f1027ffe08511ca0e9a44afb3a"
-
-// knownFindings replays the witnesses of the findings listed in proposed/C04/known_findings.json.
-func knownFindings(env *vh.Env, rep *vh.Report, self string) {
-	cases := []hcase{
-		// the site itself: ReadShortArray(din, 2^32) over the one byte 00 (FailClosed.poid_witness)
-		{Kind: "shortarrsz:4294967296", Typ: "pack.ReadShortArray", Hex: "00", What: "ReadShortArray(din, 2^32)"},
-		// … and reached from a CounterPack1 whose POid-meter count was overwritten with 2^32
-		{Kind: "pack", Typ: "pack.CounterPack1", Hex: poidWitness, What: "CounterPack1, POid meter count := 2^32 (d:8:2^32@340)"},
-	}
-	res := runChildren(self, allocK, allocC, cases, 2, 20*time.Second)
-	still := false
-	for i, r := range res {
-		n := int64(len(cases[i].Hex) / 2)
-		if (r.class == "fatal" || r.alloc > allocK*n+allocC) && strings.Contains(r.site, "ReadShortArray") {
-			still = true
-		}
-		rep.Case("K:"+cases[i].Kind+":"+hash8([]byte(cases[i].Hex)), true)
-	}
-	rep.KnownReplay("alloc:pack.ReadShortArray", still,
-		"pack.ReadShortArray(din, sz) allocates make([]int16, sz) with sz = the meter count decoded by CounterPack1.readTxcallerPOidMeter: a 16-byte section (count 2^32) requests 8 GiB")
 }
 
 // ---------------------------------------------------------------- the documented exception
